@@ -92,8 +92,16 @@ class Polytope:
         self.faces[2, :3] = simplex[np.array((0, 3, 1), dtype=int)]  # ADB
         self.faces[3, :3] = simplex[np.array((1, 3, 2), dtype=int)]  # BDC
         n_faces = 4
+        opposite_vertices = simplex[np.array((3, 1, 2, 0), dtype=int)]
         for i in range(n_faces):
             self.compute_normal(i)
+            # Normals have to point to the outside of the tetrahedron
+            # independent of the orientation of the simplex.
+            if np.dot(self.faces[i, 3],
+                      opposite_vertices[i] - self.faces[i, 0]) > 0.0:
+                self.faces[i, 1], self.faces[i, 2] = (
+                    np.copy(self.faces[i, 2]), np.copy(self.faces[i, 1]))
+                self.faces[i, 3] = -self.faces[i, 3]
         return n_faces
 
     def compute_normal(self, face_idx):
